@@ -61,7 +61,16 @@ def run_picker(d, image):
     tshape = tuple(d["tshape"])
     tmpl = planted.render_template(d["blobs"], tshape)
     rot = Rotation.from_rotvec(np.array([[0.0, 0.0, 0.0]] + d["rots"])) if d["rots"] else None
-    return ZNCCTemplateMatcher(tmpl, rotation=rot, order=1).pick_molecules(image, scale, min_distance=d["min_dist_px"] * scale, min_score=0.3)
+    if d.get("tmpl_as") == "provider":
+        # the template as a scale-aware provider, and the same matcher object used before on an image of another pixel size
+        from acryo import pipe
+        matcher = ZNCCTemplateMatcher(pipe.from_array(tmpl, original_scale=scale), rotation=rot, order=1)
+        if d.get("warm"):
+            other = gen.smooth_noise(d["seed"] + 1, (24, 24, 24), sigma=1.0)
+            matcher.pick_molecules(other, scale * 2.0, min_distance=d["min_dist_px"] * scale * 2.0, min_score=0.3)
+    else:
+        matcher = ZNCCTemplateMatcher(tmpl, rotation=rot, order=1)
+    return matcher.pick_molecules(image, scale, min_distance=d["min_dist_px"] * scale, min_score=0.3)
 
 
 def strong_picks(d, mole):
@@ -201,15 +210,24 @@ def cases(draw, pickers=("LoG", "DoG", "ZNCC")):
     # thin-slab class (blob pickers): one image axis is shorter than the overlap depth; particles sit on its mid-plane, so the
     # response stays symmetric about their centre under the 'nearest' boundary
     thin_axis = draw(st.sampled_from([None, None, None, None, 0, 1, 2])) if (picker != "ZNCC" and not pairmode) else None
+    # an axis cut into chunks that are all thinner than the overlap depth (the largest chunk counts for dask's chunksize)
+    fine_axis = draw(st.sampled_from([None, None, 0, 1, 2]))
     for a in range(3):
+        if a == fine_axis and a != thin_axis:
+            c = draw(st.integers(3, max(3, min(6, depth - 2))))
+            total = 2 * margin + spacing + draw(st.integers(0, 12))
+            sizes = [c] * (total // c) + ([total % c] if total % c else [])
+            vol.append(sum(sizes)), chunks.append(sizes), borders.append(list(np.cumsum(sizes)[:-1][:: max(1, len(sizes) // 4)]))
+            continue
         if a == thin_axis:
             size = 2 * draw(st.integers(int(math.ceil(sigma_px)), (depth - 2) // 2)) + 1
             vol.append(size), chunks.append([size]), borders.append([])
             continue
         nchunk = draw(st.sampled_from([1, 2, 2, 3]))
-        sizes = [draw(st.integers(max(depth // 2, 6), 30)) for _ in range(nchunk)]
+        # (single chunks may be much thinner than the overlap depth: 3 voxels)
+        sizes = [draw(st.one_of(st.integers(max(depth // 2, 6), 30), st.integers(3, 5))) for _ in range(nchunk)]
         while sum(sizes) < 2 * margin + spacing:
-            sizes[draw(st.integers(0, nchunk - 1))] += 6
+            sizes[int(np.argmax(sizes))] += 6
         vol.append(sum(sizes))
         chunks.append(sizes)
         borders.append(list(np.cumsum(sizes)[:-1]))
@@ -253,6 +271,7 @@ def cases(draw, pickers=("LoG", "DoG", "ZNCC")):
             p0["cls"] = "pair"
     return {"picker": picker, "scale": scale, "vol": vol, "chunks": chunks, "particles": parts, "sigma_px": sigma_px,
             "tshape": tshape, "blobs": blobs, "rots": rots, "min_dist_px": min_dist, "depth": depth, "psigma": psigma,
+            "tmpl_as": draw(st.sampled_from(["array", "array", "provider"])), "warm": draw(st.booleans()),
             "dtype": draw(st.sampled_from(["float32", "float32", "float64", "int16", "uint8"])),
             # (normalised template-matching scores of two identical noise-free particles tie exactly: keep some noise there)
             "noise": draw(st.sampled_from([0.01, 0.03] if (pairmode and picker == "ZNCC") else [0.0, 0.01, 0.03])), "seed": draw(gen.seeds)}
